@@ -6,6 +6,20 @@ from runner import Batch, Spec
 ACCEPTS = ['application/activity+json,application/ld+json; profile="https://www.w3.org/ns/activitystreams"', "application/jrd+json"]
 
 
+def py_query_escape(bs):
+    """Go's url.QueryEscape on bytes"""
+    out = []
+    for b in bs:
+        c = chr(b)
+        if c.isascii() and (c.isalnum() or c in "-_.~"):
+            out.append(c)
+        elif c == " ":
+            out.append("+")
+        else:
+            out.append("%%%02X" % b)
+    return "".join(out)
+
+
 def raw_requests(impl):
     """pull the recorded raw requests out of a net result (they follow the per-op results)"""
     return None
@@ -20,14 +34,17 @@ class C04(Spec):
     rule = ("URLs fetched through client.FetchURL / FetchUnknown against the simulator, which records every byte of every connection "
             "and counts connections to a plaintext canary port: hostile paths and queries (percent-encoded CR/LF, spaces, quotes, "
             "'..', very long), userinfo, explicit ports, fragments, IPv6-literal and other hosts that are not dialled, http:, gopher: "
-            "and scheme-less strings, redirects whose Location points at the plaintext canary or carries encoded CR/LF. Oracle: each "
+            "and scheme-less strings, redirects whose Location points at the plaintext canary or carries encoded CR/LF; WEBFINGER names as typed "
+            "by the user (client.ResolveWebfinger): accounts carrying CR LF, spaces, '&resource=', NUL/DEL/0xFF bytes, domains with "
+            "CR LF, paths, queries, '@', tabs appended, JRD answers with the self link first/second/missing/malformed. Oracle: each "
             "recorded stream parses (verified recogniser Request.parse_request) as exactly one request line, one Host and one Accept "
             "header and nothing else; the canary saw no connection; the sequence of requests equals the model's. "
             "non-trivial = a request was recorded for a URL with a query, an escape or userinfo.")
     assumptions = ["net/url is a library oracle: URLs with raw control characters are rejected by url.Parse before anything is sent; a raw "
                    "SPACE in a query is kept by net/url and is sent as is (still one request line) - such URLs are judged by the "
                    "line-structure check in this module instead of the strict recogniser",
-                   "webfinger (client.ResolveWebfinger) builds its URL with url.Values.Encode; it is exercised through the same jtp.Get"]
+                   "a TLS connection is only established to a host that resolves: names containing CR, LF, spaces, '/', '@' ... are refused by Go's "
+                   "resolver (isDomainName) before anything is sent; the model's dial succeeds for the simulator's exact host:port strings only"]
 
     def batches(self, rng, tier):
         return []
@@ -39,7 +56,9 @@ class C04(Spec):
         for _ in range(rng.randint(1, 4)):
             k = rng.randrange(3)
             r = rng.random()
-            if r < 0.6:
+            if r < 0.3:
+                self.webfinger_op(rng, w, k)
+            elif r < 0.6:
                 u = w.url(k, rng.choice(paths))
                 w.serve(u.split("#")[0], netgen.ok_json({"type": "Note", "content": "x"}))
                 w.fetch(u)
@@ -58,6 +77,52 @@ class C04(Spec):
                 w.serve(u, netgen.redirect(loc))
                 w.fetch(u)
         return w
+
+    def webfinger_op(self, rng, w, k):
+        """':open @account@domain' as typed by the user: the account is percent-encoded into the query, the domain is used as Host"""
+        acct = "u%s%d" % (w.prefix[1:], rng.randrange(10 ** 6)) + rng.choice(["", "", " sp", "\r\nX-Injected: yes", "%0d%0a", "é", "&resource=acct:other", "#f", "?x", "+", "\x00\x7f\xff", "/../.."])
+        href = w.url(rng.randrange(3), "/actor%d" % rng.randrange(100))
+        links = [{"rel": "self", "type": "application/activity+json", "href": href}]
+        v = rng.random()
+        if v < 0.15:
+            links.insert(0, {"rel": "http://webfinger.net/rel/profile-page", "type": "text/html", "href": "https://elsewhere.example/"})
+        elif v < 0.25:
+            links.insert(0, {"rel": "self", "href": "https://no-type.example/"})
+        elif v < 0.35:
+            links.insert(0, {"rel": "self", "type": "text/html", "href": "https://wrong-type.example/"})
+        elif v < 0.42:
+            links.insert(0, rng.choice(["stray", 5, None, ["nested"], {"type": "application/activity+json", "href": href}, {"rel": 5}]))
+        elif v < 0.48:
+            links = links[0]
+        elif v < 0.54:
+            links = [{"rel": "self", "type": 'application/ld+json; profile="https://www.w3.org/ns/activitystreams"', "href": href}]
+        elif v < 0.6:
+            links = [{"rel": "self", "type": "application/activity+json"}]
+        elif v < 0.64:
+            links = []
+        doc = {"subject": "acct:x", "links": links} if rng.random() < 0.95 else {"subject": "acct:x"}
+        ctype = rng.choice(["application/jrd+json", "application/jrd+json", "application/json", "application/jrd+json; charset=utf-8", "application/activity+json", "text/html"])
+        name = acct.encode("latin-1", "replace") if all(ord(c) < 256 for c in acct) else acct.encode("utf-8")
+        t = rng.random()
+        if t < 0.6:
+            dom = w.host(k)
+            url = "https://%s/.well-known/webfinger?resource=%s" % (dom, py_query_escape(b"acct:" + name + b"@" + dom.encode()))
+            if rng.random() < 0.15:
+                # the lookup is redirected
+                target = w.url(k, "/wf%d" % rng.randrange(1000))
+                w.serve(url, netgen.redirect(target))
+                w.serve(target, netgen.ok_json(doc, ctype))
+            else:
+                w.serve(url, netgen.ok_json(doc, ctype))
+            w.webfinger(name + b"@" + dom.encode())
+        elif t < 0.9:
+            # a domain that is not a plain host:port - nothing may be sent anywhere
+            dom = w.host(k) + rng.choice(["\r\nX-Injected: yes", " x", "/path", "?q=1", "#frag", "\t", "@" + w.canary(), "\r\n\r\nGET /evil HTTP/1.0\r\n", "%0d%0a", ":", "\x00"])
+            w.webfinger(name + b"@" + dom.encode("latin-1"))
+        elif t < 0.95:
+            w.webfinger(name)
+        else:
+            w.webfinger(name + b"@" + w.canary().encode())
 
     def extra_checks(self, scratch, binary, rng, tier, report):
         base = netgen.pick_port_base(rng)
